@@ -568,9 +568,10 @@ mod proofs {
         crate::witness!(fail_at == 3, "WITNESS last map element fails");
         crate::witness!(fail_at == 4, "WITNESS none fails");
     }
+    #[cfg(feature = "thorough")]
     #[kani::proof]
     #[kani::unwind(8)]
-    fn c14_nest_b4() {
+    fn c14_t_nest_b4() {
         let mut rng = SymRng::new();
         let fail_at = fail_upto(4);
         check_nest_b4(kani::any(), fail_at, &mut rng);
